@@ -125,6 +125,7 @@ func (d *Data) processMerge(v dvid.VersionID, mutID uint64, delta labels.DeltaMe
 	}
 
 	downresMut := downres.NewMutation(d, v, mutID)
+	defer downresMut.Abort() // releases the scales if we return before Execute
 	for _, izyx := range delta.Blocks {
 		n := izyx.Hash(numMutateHandlers)
 		d.MutAdd(mutID)
@@ -454,6 +455,7 @@ func (d *Data) processSplit(v dvid.VersionID, mutID uint64, delta labels.DeltaSp
 	timedLog := dvid.NewTimeLog()
 
 	downresMut := downres.NewMutation(d, v, mutID)
+	defer downresMut.Abort() // releases the scales if we return before Execute
 
 	var doneCh chan struct{}
 	var deleteBlks dvid.IZYXSlice
